@@ -19,7 +19,8 @@
         [FindSessionByKey]/[ByID], [RefreshSession] (never shortens), [DeleteSession];
       - http/tokens.go [GetToken] (byte level) and http/authentication_middleware.go
         [ProbeAuthScheme], [ServeHTTP], [extractAuthorization], [extractSession], [isUserActive];
-        auth.go [Authorization.PermissionSet] (error for a token that is not active).
+        auth.go [Authorization.PermissionSet] (error for a token that is not active; the
+        middleware now refuses such a token itself).
 
     Strings are opaque values of an abstract carrier [str C]; the cryptographic primitives
     (SHA-256/512 + PHC encoding, bcrypt) are the fields of a record [C : crypto] whose
@@ -448,8 +449,13 @@ Section Model.
         else match find_token (ts st) t with
              | None => deny
              | Some (id, a) =>
-                 user_check {| p_kind := 1; p_user := a_user a; p_ident := id;
-                               p_perm := if a_active a then Some (a_nperm a) else None |} st
+                 (* extractAuthorization refuses a token whose status is "inactive" with 401,
+                    like every other lookup failure (/repo fix of the finding
+                    inactive-token-passes-authentication-middleware; before it the status was
+                    never looked at and only PermissionSet() refused) *)
+                 if negb (a_active a) then deny
+                 else user_check {| p_kind := 1; p_user := a_user a; p_ident := id;
+                                    p_perm := Some (a_nperm a) |} st
              end
     | _, None => deny
     | _, Some k =>
